@@ -1,6 +1,6 @@
 """LRU family: C16 (cache/lru: capacity, one consistent map under concurrency,
 LRU order, failed operations leave the cache usable)."""
-import json, os, random, shutil, time
+import json, os, random, shutil, sys, time
 from concurrent.futures import ThreadPoolExecutor
 from .. import core, family
 
@@ -46,9 +46,9 @@ PGD = '{"Put","Get","Del"}'
 PGDL = '{"Put","Get","Del","Len"}'
 
 
-def cfg(name, NT, OpsPer, Cap, sizes, inits, kinds, poison=0, maxel=8):
+def cfg(name, NT, OpsPer, Cap, sizes, inits, kinds, poison=0, maxel=8, nk=2):
     return dict(name=name,
-                consts=dict(NT=NT, OpsPer=OpsPer, NK=2, Cap=Cap, MaxEl=maxel, MaxPoison=poison),
+                consts=dict(NT=NT, OpsPer=OpsPer, NK=nk, Cap=Cap, MaxEl=maxel, MaxPoison=poison),
                 defs=dict(Sizes=sizes, InitLists=inits, OpKinds=kinds))
 
 
@@ -58,6 +58,10 @@ def configs(tier):
         if fixed:
             return [
                 cfg("seq4", 1, 4, 2, "<<1,2,3>>", "{<<>>}", ALL, poison=1),
+                cfg("seqp", 1, 3, 2, "<<1,1,2>>", "{<<<<2,2>>,<<1,1>>>>}", ALL, poison=1),
+                # three keys: the only configurations in which eviction has a choice of victim
+                cfg("seqk3", 1, 4, 2, "<<1,2>>", "{<<>>, <<<<2,1>>,<<1,1>>>>}", PGD, nk=3),
+                cfg("seqk3c3", 1, 3, 3, "<<1,2>>", "{<<<<3,1>>,<<2,1>>,<<1,1>>>>, <<<<1,1>>,<<2,2>>>>}", ALL, poison=1, nk=3),
                 cfg("c2x2", 2, 2, 2, "<<1,2>>", "{<<>>, <<<<1,1>>>>, <<<<2,1>>,<<1,1>>>>}", ALL, poison=1),
                 cfg("c3x1", 3, 1, 3, "<<1,2>>", "{<<>>, <<<<1,1>>>>, <<<<2,2>>,<<1,1>>>>}", ALL, poison=1),
             ]
@@ -84,9 +88,9 @@ def configs(tier):
 
 
 FREE = {
-    "quick": dict(traces=400, nt=3, ops=3, rounds=2, cap=2, sizes=[1, 2], nk=2, poison=True,
+    "quick": dict(traces=400, nt=3, ops=3, rounds=2, cap=2, sizes=[1, 2], nk=3, poison=True,
                   kinds=["Put", "Put", "Get", "Del", "Len", "Size"]),
-    "thorough": dict(traces=4000, nt=3, ops=4, rounds=3, cap=3, sizes=[1, 2, 3], nk=2, poison=True,
+    "thorough": dict(traces=4000, nt=3, ops=4, rounds=3, cap=3, sizes=[1, 2, 3], nk=3, poison=True,
                      kinds=["Put", "Put", "Get", "Del", "Len", "Size"]),
 }
 
@@ -194,15 +198,13 @@ def conforms(t, e):
     return True
 
 
-def select_for_judge(exp, observed, rng, sample):
-    """Which observed traces must be judged by a separate TLC run.  A trace
-    that equals the model path step by step (same actions with the same
-    results, same observables) was already judged by TLC with exactly these
-    inputs when the graph was exported (edge attribute viol); it is re-judged
-    if that verdict is a violation (cut at the violating step, identical cuts
-    once) and, as a cross-check, when it falls into the random sample."""
-    need, clean, memo = [], [], 0
-    cuts = {}
+def split_observed(exp, observed):
+    """A trace that equals its model path step by step (same actions with the
+    same results, same observables) was already judged by TLC with exactly
+    these inputs while the graph was exported (edge attribute viol = the value
+    of LRUProps!Viol on that step).  Returns (nonconforming, clean, violating)
+    where violating = [(trace, first violating step (1-based), names)]."""
+    need, clean, violating = [], [], []
     for t in observed:
         if t.get("error"):
             continue
@@ -210,30 +212,92 @@ def select_for_judge(exp, observed, rng, sample):
         if not conforms(t, e):
             need.append(t)
             continue
-        memo += 1
         fv = next((i for i, m in enumerate(e["steps"]) if m["viol"]), None)
         if fv is None:
             clean.append(t)
-            continue
-        key = json.dumps([[s["act"], s["obs"]] for s in t["steps"][:fv + 1]], sort_keys=True)
-        if key in cuts:
-            cuts[key]["mult"] += 1
         else:
-            c = dict(t)
-            c["steps"] = t["steps"][:fv + 1]
-            c["mult"] = 1
-            cuts[key] = c
-    samp = rng.sample(clean, min(sample, len(clean)))
-    return need, list(cuts.values()), samp, memo
+            violating.append((t, fv + 1, list(e["steps"][fv]["viol"])))
+    return need, clean, violating
+
+
+def classify(prop_id, violating, known, verdict):
+    """family.judge's classification applied to verdicts TLC computed at export time."""
+    names_of = set(PROPS[prop_id])
+    for t, step, names in violating:
+        mine = [n for n in names if n in names_of]
+        if not mine:
+            continue
+        labels = [label(s["act"]) for s in t["steps"][:step]]
+        unmatched = []
+        for n in mine:
+            k = core.match_known(known, prop_id, n, labels)
+            if k:
+                verdict["known"].setdefault(k["id"], {"entry": k, "count": 0, "example": labels})
+                verdict["known"][k["id"]]["count"] += 1
+            else:
+                unmatched.append(n)
+        if unmatched:
+            verdict["violations"].append({"trace": t["id"], "step": step, "props": unmatched, "labels": labels,
+                                          "observed": t})
+
+
+def judge_parallel(prop_id, traces, known, verdict, chunk_lines=30000, par=6):
+    """TLC (ObsCheck) on observed traces that are not covered by the export-time
+    verdicts: identical traces are judged once, the rest is split over several
+    TLC processes.  Results are classified into `verdict`."""
+    uniq, mult = {}, {}
+    for t in traces:
+        if t.get("error") or not t.get("steps"):
+            continue
+        key = json.dumps([t.get("init_obs")] + [[s["act"], s["obs"]] for s in t["steps"]], sort_keys=True)
+        if key in uniq:
+            mult[uniq[key]["id"]] += 1
+        else:
+            uniq[key] = t
+            mult[t["id"]] = 1
+    todo = list(uniq.values())
+    chunks, cur, n = [], [], 0
+    for t in todo:
+        cur.append(t)
+        n += len(t["steps"]) + 1
+        if n >= chunk_lines:
+            chunks.append(cur)
+            cur, n = [], 0
+    if cur:
+        chunks.append(cur)
+    lines = 0
+    viol = []
+    with ThreadPoolExecutor(max_workers=par) as ex:
+        for v, nl, _ in ex.map(lambda c: core.obs_check([SPEC], "LRUProps", c), chunks):
+            viol += v
+            lines += nl
+    by_trace = {}
+    for (t, i, name) in viol:
+        by_trace.setdefault(t, {}).setdefault(i, []).append(name)
+    by_id = {t["id"]: t for t in todo}
+    violating = []
+    for t, steps in sorted(by_trace.items()):
+        first = min(steps)
+        violating.append((by_id[t], first, sorted(steps[first])))
+    classify(prop_id, violating, known, verdict)
+    verdict["n_lines"] += lines
+    return len(todo), lines
 
 
 def free_run(binary, sc, tier, seed, first_id):
     c = dict(FREE[tier])
+    if os.environ.get("VERIF_LRU_NOFREE"):               # development aid
+        c["traces"] = 0
     c.update(seed=seed, first_id=first_id)
     out = os.path.join(sc, "free.ndjson")
     obs, log = family.run_driver(binary, "TestVerifLRUFree", "", out, sc,
                                  env_extra={"VERIF_LRU_FREE": json.dumps(c)})
     return obs, c
+
+
+def _log(t0, *a):
+    if os.environ.get("VERIF_VERBOSE"):
+        print("[lru %6.1fs]" % (time.time() - t0), *a, file=sys.stderr, flush=True)
 
 
 def run(prop_id, tier, seed, replay=None):
@@ -250,6 +314,14 @@ def run(prop_id, tier, seed, replay=None):
         per_cfg = {}
         if replay:
             pf = os.path.join(sc, "paths.ndjson")
+            rec = json.load(open(replay))["trace"]
+            if any(s["act"].get("step") in ("call", "ret") for s in rec["steps"]):
+                # a free-running history: its schedule cannot be forced again; the recorded
+                # history is judged again (and the check itself re-runs histories with this seed)
+                rec["id"] = 0
+                verdict = family.judge([SPEC], "LRUProps", PROPS[prop_id], prop_id, [rec], label=label)
+                return family.finish(prop_id, tier, seed, t0, family._NoTLC(), None, [0], [rec], verdict, (0, 0, []),
+                                     {"mode": "re-judged free-running history " + replay}, ASSUMPTIONS, label=label)
             family.paths_from_replay(replay, pf)
             binary = build()
             observed, _ = family.run_driver(binary, "TestVerifLRUReplay", pf, os.path.join(sc, "obs.ndjson"), sc)
@@ -258,6 +330,9 @@ def run(prop_id, tier, seed, replay=None):
             return family.finish(prop_id, tier, seed, t0, family._NoTLC(), None, [0], observed, verdict, dr,
                                  {"mode": "replay of " + replay}, ASSUMPTIONS, label=label)
         cfgs = configs(tier)
+        only = os.environ.get("VERIF_LRU_ONLY")          # development aid: subset of configurations
+        if only:
+            cfgs = [c for c in cfgs if c["name"] in only.split(",")]
         ncpu = os.cpu_count() or 4
         par = min(len(cfgs), 3)
         workers = max(2, min(8, ncpu // par))
@@ -266,6 +341,7 @@ def run(prop_id, tier, seed, replay=None):
             futs = [ex.submit(run_model, c, os.path.join(sc, "tlc-" + c["name"]), workers) for c in cfgs]
             binary = fb.result()
             tlcs = [f.result() for f in futs]
+        _log(t0, "tlc done", [(c["name"], t.distinct, t.generated, round(t.wall, 1)) for c, t in zip(cfgs, tlcs)])
         next_id = 0
         dsteps = ddrift = 0
         dsamples = []
@@ -286,6 +362,7 @@ def run(prop_id, tier, seed, replay=None):
                     next_id += 1
             obs_c, _ = family.run_driver(binary, "TestVerifLRUReplay", pf,
                                          os.path.join(sc, "obs-%s.ndjson" % c["name"]), sc)
+            _log(t0, c["name"], "replayed", len(paths), "paths")
             ns, nd, smp = family.drift(pf, obs_c, label=label)
             dsteps += ns
             ddrift += nd
@@ -305,26 +382,50 @@ def run(prop_id, tier, seed, replay=None):
             shutil.rmtree(os.path.join(sc, "tlc-" + c["name"]), ignore_errors=True)
             del g
 
-        need, cuts, samp, memo = select_for_judge(exp, observed, rng, 300 if tier == "quick" else 2000)
+        need, clean, violating = split_observed(exp, observed)
         free_obs, free_cfg = free_run(binary, sc, tier, seed, next_id)
-        to_judge = need + cuts + samp + free_obs
-        verdict = family.judge([SPEC], "LRUProps", PROPS[prop_id], prop_id, to_judge, label=label)
-        # cross-check of the memoised verdicts
-        samp_ids = {t["id"] for t in samp}
-        bad = [v for v in verdict["violations"] if v["trace"] in samp_ids]
-        badk = [k for k, v in verdict["known"].items() if False]
-        if bad:
-            raise core.MachineryError("a trace equal to a violation-free model path was judged violating by the "
-                                      "separate TLC run: %s" % bad[0]["labels"])
-        mult = {t["id"]: t.get("mult", 1) for t in cuts}
-        for k in verdict["known"].values():
-            pass
+        _log(t0, "free-running done", len(free_obs), "need", len(need), "clean", len(clean), "violating", len(violating))
+        # cross-check sample of the verdicts taken from the export
+        ns = 150 if tier == "quick" else 600
+        samp_c = rng.sample(clean, min(ns, len(clean)))
+        samp_v = rng.sample(violating, min(ns, len(violating)))
+        samp_vt = [dict(t, steps=t["steps"][:step]) for (t, step, _) in samp_v]
+        known = core.load_known()
+        verdict = {"violations": [], "known": {}, "n_lines": 0, "wall": 0.0}
+        n_uniq, _ = judge_parallel(prop_id, need + free_obs, known, verdict)
+        _log(t0, "judged off-path + free", verdict["n_lines"], "lines", n_uniq, "distinct traces")
+        chk = core.obs_check([SPEC], "LRUProps", samp_c + samp_vt)
+        _log(t0, "cross-check done", chk[1], "lines")
+        got = {}
+        for (t, i, name) in chk[0]:
+            got.setdefault(t, {}).setdefault(i, set()).add(name)
+        for t in samp_c:
+            if t["id"] in got:
+                raise core.MachineryError("trace %d equals a violation-free model path but the separate TLC run "
+                                          "reports %s" % (t["id"], got[t["id"]]))
+        for (t, step, names) in samp_v:
+            g1 = got.get(t["id"], {})
+            if not g1 or min(g1) != step or g1[step] != set(names):
+                raise core.MachineryError("trace %d: export-time verdict %s at step %d, separate TLC run %s" % (
+                    t["id"], names, step, g1))
+        classify(prop_id, violating, known, verdict)
+        verdict["n_lines"] += chk[1]
+        verdict["violations"].sort(key=lambda v: (len(v["labels"]), v["trace"]))
+        classes = {}
+        for v in verdict["violations"]:
+            c = classes.setdefault(",".join(v["props"]), {"count": 0, "shortest": " ".join(v["labels"])})
+            c["count"] += 1
+        for k, c in sorted(classes.items()):
+            _log(t0, "violation class", k, c["count"], "e.g.", c["shortest"][:300])
         extra = {"configs": per_cfg, "code_version": CODE_VERSION,
                  "edges_only_reachable_through_model_violation": unreach_tot,
-                 "traces_equal_to_model_path": memo,
-                 "traces_rejudged_by_tlc": dict(nonconforming=len(need), predicted_violation_cuts=len(cuts),
-                                                predicted_violation_traces=sum(mult.values()),
-                                                sample_of_clean=len(samp), free_running=len(free_obs)),
+                 "verdicts": dict(
+                     traces_equal_to_model_path_judged_at_export=len(clean) + len(violating),
+                     of_which_violating=len(violating),
+                     traces_off_model_path_judged_separately=len(need),
+                     cross_checked_by_separate_tlc_run=len(samp_c) + len(samp_vt),
+                     free_running_histories_judged_separately=len(free_obs)),
+                 "violation_classes": classes,
                  "free_running": dict(free_cfg, histories=len(free_obs),
                                       events=sum(len(t["steps"]) for t in free_obs))}
         return family.finish(prop_id, tier, seed, t0, tot, tot, list(range(npaths)), observed + free_obs, verdict,
